@@ -101,6 +101,8 @@ func runC06(r *Run, verifDir string) {
 	}
 	r.Rule("C06.D7", "the attribute decoder stores the typed value on every success exit of a known attribute", 1)
 	attrDecoderSetsValue(r, "C06.D7")
+	c06D8(r)
+	c06D9(r)
 	opIface, _ := root.Types.Scope().Lookup("OperationPayload").Type().Underlying().(*types.Interface)
 	objIface, _ := root.Types.Scope().Lookup("Object").Type().Underlying().(*types.Interface)
 	if opIface == nil || objIface == nil {
@@ -776,5 +778,128 @@ func attrDecoderSetsValue(r *Run, rule string) {
 		r.Unk(rule, key, fn.Pos(), "no success exit found in the attribute decoder")
 	default:
 		r.OK(rule, key, fn.Pos(), "%d success exit(s): each follows the store of the typed value, or is the unknown-attribute branch", n)
+	}
+}
+
+// ---------------------------------------------------------------- D8 / D9
+
+// c06D8: an interface-typed destination is decoded INTO the value its owner pre-seeded (the batch-item decoders seed
+// the payload for the decoded operation, and UnknownPayload keeps the operation code in an unexported field that only
+// the seeding sets): the interface plan passes value.Elem() of its own destination to decodeValue and never replaces
+// the destination.
+func c06D8(r *Run) {
+	p := r.P
+	r.Rule("C06.D8", "the generic decoder fills the pre-seeded value behind an interface, it does not replace it", 1)
+	df := p.Func("ttlv", "", "decodeFunc")
+	key := "ttlv.decodeFunc/interface-plan"
+	if df == nil {
+		r.Unk("C06.D8", key, token.NoPos, "anchor missing")
+		return
+	}
+	n, bad := 0, token.NoPos
+	why := ""
+	withClosures(df, func(cl *ssa.Function) {
+		if cl == df || len(cl.Params) < 3 {
+			return
+		}
+		// the destination parameter: the reflect.Value one
+		var dst *ssa.Parameter
+		for _, prm := range cl.Params {
+			if typeName(prm.Type()) == "Value" && typePkgPath(prm.Type()) == "reflect" {
+				dst = prm
+			}
+		}
+		if dst == nil {
+			return
+		}
+		var dv *ssa.Call
+		allInstrs(cl, func(in ssa.Instruction) {
+			if c, ok := in.(*ssa.Call); ok && callID(&c.Call).is(ttlvPath, "Decoder", "decodeValue") {
+				dv = c
+			}
+		})
+		if dv == nil {
+			return
+		}
+		// is this the interface plan? it calls Elem() on the destination or decodes into a New value
+		isIface := false
+		allInstrs(cl, func(in ssa.Instruction) {
+			if c, ok := in.(*ssa.Call); ok {
+				id := callID(&c.Call)
+				if id.pkg == "reflect" && id.recv == "Value" && id.name == "Elem" && len(c.Call.Args) == 1 && unspill(c.Call.Args[0]) == ssa.Value(dst) {
+					isIface = true
+				}
+			}
+		})
+		if !isIface {
+			return
+		}
+		n++
+		target := dv.Call.Args[len(dv.Call.Args)-1]
+		okTarget := false
+		if c, ok := target.(*ssa.Call); ok {
+			id := callID(&c.Call)
+			if id.pkg == "reflect" && id.recv == "Value" && id.name == "Elem" && unspill(c.Call.Args[0]) == ssa.Value(dst) {
+				okTarget = true
+			}
+		}
+		replaced := false
+		allInstrs(cl, func(in ssa.Instruction) {
+			if c, ok := in.(*ssa.Call); ok {
+				id := callID(&c.Call)
+				if id.pkg == "reflect" && id.recv == "Value" && id.name == "Set" && unspill(c.Call.Args[0]) == ssa.Value(dst) {
+					replaced = true
+				}
+			}
+		})
+		if !okTarget || replaced {
+			bad = dv.Pos()
+			why = "the interface plan decodes into a value other than the one behind the destination (or replaces the destination afterwards)"
+		}
+	})
+	switch {
+	case bad.IsValid():
+		r.Bad("C06.D8", key, bad, "%s: the value the owner pre-seeded is discarded, so a payload of an operation without registered type (UnknownPayload, whose operation code is set only by the seeding) reports operation 0 after decoding", why)
+	case n == 0:
+		r.Unk("C06.D8", key, df.Pos(), "the interface decode plan (a closure calling Elem() on its destination and decodeValue) was not found")
+	default:
+		r.OK("C06.D8", key, df.Pos(), "%d interface plan(s): decodeValue(tag, value.Elem()), destination never replaced", n)
+	}
+}
+
+// c06D9: the attribute's Go type is chosen by the exact attribute name: newAttribute looks attrTypes up with its
+// parameter itself (a normalised/derived key would type look-alike names that are not standard attributes).
+func c06D9(r *Run) {
+	p := r.P
+	r.Rule("C06.D9", "newAttribute looks the type table up with the attribute name itself", 1)
+	fn := p.Func("", "", "newAttribute")
+	key := "kmip.newAttribute/exact-name"
+	if fn == nil {
+		r.Unk("C06.D9", key, token.NoPos, "anchor missing")
+		return
+	}
+	tbl := curVarName(modPath, "attrTypes")
+	n, bad := 0, token.NoPos
+	allInstrs(fn, func(in ssa.Instruction) {
+		lk, ok := in.(*ssa.Lookup)
+		if !ok {
+			return
+		}
+		g := globalRoot(lk.X, 0)
+		if g == nil || g.Name() != tbl {
+			return
+		}
+		n++
+		if unspill(lk.Index) != ssa.Value(fn.Params[0]) {
+			bad = lk.Pos()
+		}
+	})
+	switch {
+	case bad.IsValid():
+		r.Bad("C06.D9", key, bad, "newAttribute looks the attribute type up with a value derived from the name, not the name itself: a name that is not a standard attribute but normalises to one is decoded as that attribute's type (a value of another kind makes the whole message fail, a matching one comes back typed instead of opaque)")
+	case n == 0:
+		r.Unk("C06.D9", key, fn.Pos(), "no lookup of the attribute type table found in newAttribute")
+	default:
+		r.OK("C06.D9", key, fn.Pos(), "%d lookup(s) keyed by the parameter itself", n)
 	}
 }
